@@ -14,7 +14,8 @@ import common
 from common import coq_list, coq_N
 
 IMPORTS = 'From XV Require Import Base Tree.'
-TAGS = {'root': 1, 'section': 2, 'title': 3, 'para': 4, 'item': 5, 'note': 6, 'value': 7, 'tag': 8, 'bogus': 9, 'wrap': 10}
+TAGS = {'root': 1, 'section': 2, 'title': 3, 'para': 4, 'item': 5, 'note': 6, 'value': 7, 'tag': 8, 'bogus': 9, 'wrap': 10,
+        'entry': 11, 'mark': 12}
 NS = 'urn:d'
 WNS = 'urn:w'      # namespace of the undeclared wrapper element matched by the lax wildcard
 
@@ -22,7 +23,7 @@ WNS = 'urn:w'      # namespace of the undeclared wrapper element matched by the 
 def schema_xsd(ns):
     tns = ' targetNamespace="%s" xmlns:t="%s" elementFormDefault="qualified"' % (NS, NS) if ns else ''
     p = 't:' if ns else ''
-    return ('<xs:schema xmlns:xs="http://www.w3.org/2001/XMLSchema"%s>'
+    return (('<xs:schema xmlns:xs="http://www.w3.org/2001/XMLSchema"%s>'
             '<xs:complexType name="itemType"><xs:sequence><xs:element name="value" type="xs:int"/>'
             '<xs:element name="tag" type="xs:token" minOccurs="0" maxOccurs="unbounded"/></xs:sequence>'
             '<xs:attribute name="n" type="xs:int" use="required"/>'
@@ -31,20 +32,28 @@ def schema_xsd(ns):
             '<xs:complexType name="sectionType"><xs:sequence><xs:element name="title" type="xs:string"/>'
             '<xs:element name="para" type="xs:string" minOccurs="0" maxOccurs="unbounded"/>'
             '<xs:element name="item" type="%sitemType" minOccurs="0" maxOccurs="unbounded"/>'
-            '<xs:element name="section" type="%ssectionType" minOccurs="0" maxOccurs="2"/>'
+            '<xs:element name="section" type="%ssectionType" minOccurs="0" maxOccurs="2">UNIQ</xs:element>'
+            '<xs:sequence minOccurs="0" maxOccurs="unbounded"><xs:element name="entry" type="%sitemType"/>'
+            '<xs:element name="mark" type="xs:string"/></xs:sequence>'
             '<xs:element name="note" type="xs:string" minOccurs="0"/>'
             '<xs:any namespace="##other" processContents="lax" minOccurs="0"/></xs:sequence>'
             '<xs:attribute name="id" type="xs:NCName" use="required"/><xs:attribute name="level" type="xs:int"/>'
             '</xs:complexType>'
-            '<xs:element name="section" type="%ssectionType"/>'
+            '<xs:element name="section" type="%ssectionType">UNIQ</xs:element>'
             '<xs:element name="root"><xs:complexType><xs:sequence><xs:element name="section" type="%ssectionType" '
-            'maxOccurs="unbounded"/></xs:sequence></xs:complexType></xs:element></xs:schema>' % (tns, p, p, p, p))
+            'maxOccurs="unbounded">UNIQ</xs:element></xs:sequence></xs:complexType></xs:element></xs:schema>' % (tns, p, p, p, p, p)
+            ).replace('UNIQ', '<xs:unique name="UI1"><xs:selector xpath="%sitem|%sentry"/><xs:field xpath="@n"/></xs:unique>' % (p, p), 1
+            ).replace('UNIQ', '<xs:unique name="UI2"><xs:selector xpath="%sitem|%sentry"/><xs:field xpath="@n"/></xs:unique>' % (p, p), 1
+            ).replace('UNIQ', '<xs:unique name="UI3"><xs:selector xpath="%sitem|%sentry"/><xs:field xpath="@n"/></xs:unique>' % (p, p), 1))
 
 
 def gen_doc(rng, depth=0):
     """tree node: {'tag','attrs':{},'text':None|str,'kids':[]}"""
-    def item():
-        return {'tag': 'item', 'attrs': dict({'n': str(rng.randint(0, 9))}, **({'kind': rng.choice('ab')} if rng.random() < 0.5 else {})),
+    counter = [0]
+
+    def item(tag='item'):
+        counter[0] += 1
+        return {'tag': tag, 'attrs': dict({'n': str(counter[0])}, **({'kind': rng.choice('ab')} if rng.random() < 0.5 else {})),
                 'text': None, 'kids': [{'tag': 'value', 'attrs': {}, 'text': str(rng.randint(0, 99)), 'kids': []}] +
                 [{'tag': 'tag', 'attrs': {}, 'text': 'k%d' % i, 'kids': []} for i in range(rng.choice([0, 0, 1, 2, 3]))]}
 
@@ -54,6 +63,10 @@ def gen_doc(rng, depth=0):
         kids += [item() for _ in range(rng.choice([0, 1, 2, 3]))]
         if d < 2:
             kids += [section(d + 1) for _ in range(rng.choice([0, 0, 1, 2]))]
+        for _ in range(rng.choice([0, 0, 1, 2, 3])):
+            # same-named siblings that are not contiguous: entry, mark, entry, mark, ...
+            kids.append(item('entry'))
+            kids.append({'tag': 'mark', 'attrs': {}, 'text': 'm', 'kids': []})
         if rng.random() < 0.4:
             kids.append({'tag': 'note', 'attrs': {}, 'text': 'n', 'kids': []})
         if d < 2 and rng.random() < 0.25:
@@ -87,10 +100,10 @@ def get(n, a):
     return n
 
 
-REQUIRED_CHILD = {'section': 'title', 'item': 'value'}
+REQUIRED_CHILD = {'section': 'title', 'item': 'value', 'entry': 'value'}
 INT_TEXT = {'value'}
 INT_ATTR = {'n', 'level'}
-REQ_ATTR = {'section': 'id', 'item': 'n'}
+REQ_ATTR = {'section': 'id', 'item': 'n', 'entry': 'n'}
 
 
 def faults(doc, rng=None):
@@ -108,7 +121,7 @@ def faults(doc, rng=None):
                 out.append(('badattr', a, mutated(lambda x, an=an: x['attrs'].__setitem__(an, 'x!'))))
         if n['tag'] in REQ_ATTR:
             out.append(('missingattr', a, mutated(lambda x: x['attrs'].pop(REQ_ATTR[x['tag']]))))
-        if n['tag'] in ('section', 'item'):
+        if n['tag'] in ('section', 'item', 'entry'):
             out.append(('extraattr', a, mutated(lambda x: x['attrs'].__setitem__('zz', '1'))))
             out.append(('missingchild', a, mutated(lambda x: x['kids'].pop(0))))
             for pos in sorted({0, len(n['kids']) // 2, len(n['kids'])}):
@@ -119,6 +132,17 @@ def faults(doc, rng=None):
                     out.append(('misplaced', a, mutated(lambda x, i=i: x['kids'].__setitem__(
                         slice(i, i + 2), [x['kids'][i + 1], x['kids'][i]]))))
                     break
+    # a duplicated value of the unique constraint UI: the n of an item / entry copied from a preceding one of the same section
+    for a, n in nodes(doc):
+        if n['tag'] == 'section' and not any(k['tag'] in ('section', 'wrap') for k in n['kids']):
+            # (a nested section re-uses the identity counter of the enclosing one: F-C08b, outside this property)
+            keyed = [i for i, k in enumerate(n['kids']) if k['tag'] in ('item', 'entry')]
+            for j in range(1, len(keyed)):
+                def dup(x, j=j, keyed=keyed):
+                    x['kids'][keyed[j]]['attrs']['n'] = x['kids'][keyed[j - 1]]['attrs']['n']
+                d = copy.deepcopy(doc)
+                dup(get(d, a))
+                out.append(('dupkey', a + (keyed[j],), d))
     return out
 
 
